@@ -109,6 +109,16 @@ def packed(ctx, crate):
             # entries given to create_unsafe derive from pack's result
             ok = derives(e, cu[0].args[1], pk[0].ret)
         ctx.report(clause, fin.split("::")[-1] + ":entries-from-pack", ok, "the BMOC is created from the vector returned by pack()", at=b.span, kind="N")
+        # pack decodes entries with the builder's own depth_max: it must run on the entries as they were pushed,
+        # i.e. BEFORE to_lower_depth re-encodes them for new_depth (after it, every cell looks deeper than it is,
+        # the depth-0 guard never fires and four full base cells are merged into a cell above depth 0)
+        tl = [ev for ev in e.events.values() if ev.callee == "nested::bmoc::BMOCBuilderUnsafe::to_lower_depth"]
+        if tl and len(pk) >= 1:
+            okl = len(tl) == 1 and len(pk) == 1 and any(derives(e, a, pk[0].ret) for a in tl[0].args[1:]) and not any(derives(e, a, tl[0].ret) for a in pk[0].args)
+            # and nothing between: `pack` takes its input from the builder, not from the lowered vector
+            order = b.rpo().get(pk[0].site[-1][1], 0) < b.rpo().get(tl[0].site[-1][1], 0) if len(tl) == 1 and len(pk) == 1 else False
+            ctx.report(clause, fin.split("::")[-1] + ":pack-before-lowering", okl and order, "to_lower_depth receives the vector returned by pack()" if okl and order else
+                       "pack() does not run before to_lower_depth (pack calls: %d, to_lower_depth calls: %d): it decodes re-encoded entries with the former depth_max" % (len(pk), len(tl)), at=b.span, kind="N")
     for fn in ("nested::cone_coverage_approx", "nested::cone_coverage_approx_custom", "nested::cone_coverage_approx_flat"):
         b = ctx.anchor(crate, fn, clause)
         if b is None: continue
